@@ -1143,6 +1143,40 @@ func runIdxFresh(c *Ctx, r *RuleRun) {
 			})
 			r.Check(dep, p.FnName(callee), "largest index in use", p.Pos(callee.Pos()), "computed from the levelIdx of the handles in the level",
 				"the 'largest index in use' does not look at the indices of the tables in the level (e.g. it counts them): once indices have a gap a new table is renamed over a live one and its keys are lost")
+			// … and it is the largest: the running value is replaced only by a larger index (or through max)
+			eachInstr(callee, func(ins ssa.Instruction) {
+				ret, ok := ins.(*ssa.Return)
+				if !ok || len(ret.Results) != 1 {
+					return
+				}
+				ph, ok := retOperand(ret, 0).(*ssa.Phi)
+				if !ok {
+					return
+				}
+				_, leaves := phiLeaves(ph, ph.Block())
+				okMax := true
+				for _, lf := range leaves {
+					if lf.val == ssa.Value(ph) {
+						continue
+					}
+					if cl, isCall := lf.val.(*ssa.Call); isCall {
+						if bi, isBi := cl.Call.Value.(*ssa.Builtin); isBi && bi.Name() == "max" {
+							continue
+						}
+					}
+					if len(lf.pred.Instrs) == 0 {
+						okMax = false
+						continue
+					}
+					at := lf.pred.Instrs[len(lf.pred.Instrs)-1]
+					if !hasFact(at, func(cm Cmp) bool {
+						return cm.Y != nil && (cm.Op == ">" || cm.Op == ">=") && stripValue(cm.X) == stripValue(lf.val) && cm.Y == ssa.Value(ph)
+					}) {
+						okMax = false
+					}
+				}
+				r.Check(okMax, p.FnName(callee), "largest, not smallest", p.Pos(instrPos(ret)), "the running value is replaced only by a larger index", "the running value is replaced by an index that is not known to be larger (e.g. `<` for `>`): the result is not the largest index in use and the next table can take a number that is taken")
+			})
 		}
 	}
 }
